@@ -18,9 +18,9 @@ EXPLANATION = ("Deductive: token languages of the code's regex literals equal th
 
 
 def units(tier):
-    return ([G.L_TOKENS, G.L_SHAPES, G.L_NO_SHARED_DEFAULTS, G.U_ACT_SYMBOL, G.U_ACT_ISOTOPE, G.U_ACT_ION, G.U_ACT_FRACT, G.U_ACT_WHOLE,
+    return (([G.L_TOKENS, G.L_SHAPES, G.L_NO_SHARED_DEFAULTS, G.U_ACT_SYMBOL, G.U_ACT_ISOTOPE, G.U_ACT_ION, G.U_ACT_FRACT, G.U_ACT_WHOLE,
              G.U_CONVERT_ELEMENT] + G.U_CONVERT_IMPLICIT + G.U_CONVERT_EXPLICIT + G.U_CONVERT_COMPOUND +
-            [G.U_IMMUTABLE] + G.U_PARSE_FORMULA + [F.U_IMMUTABLE_REC, F.L_DEN_CONGRUENCE, F.U_COUNT_ATOMS, F.U_ATOMS, F.U_CHARGE, K.U_SYMBOL, K.U_EL_GETITEM, K.U_IONSET]) + [W.U_PKG[0]]
+            [G.U_IMMUTABLE] + G.U_PARSE_FORMULA + [F.U_IMMUTABLE_REC, F.L_DEN_CONGRUENCE, F.U_COUNT_ATOMS, F.U_ATOMS, F.U_CHARGE, K.U_SYMBOL, K.U_EL_GETITEM, K.U_IONSET]) + [W.U_PKG[0]]) + [K.L_ATOM_IDENTITY]
 
 
 def runner_tasks(tier):
